@@ -7,7 +7,7 @@ From PV Require Import Model.DftAbs Model.Gadget Model.GadgetSpec Proofs.C04Phas
 From PV Require Import Base.MachineInt Model.Znx Model.Limbs Model.Ring Model.Poly
   Model.C14Lut Model.C14Spec Model.C14Blind Model.C14Run Model.C14Oracle.
 From PV Require Import Proofs.C14Rotate Proofs.C14Set Proofs.C14Poly Proofs.C14Approx Proofs.C14Blind Proofs.C14Abstract Proofs.C14ModSwitch.
-From PV Require Import Proofs.C14FromC04.
+From PV Require Import Proofs.C14FromC04 Proofs.C14History.
 Open Scope Z_scope.
 
 (* ================= 1. interleaving the ext polynomials: a bijection onto coefficient lists of length N*ext ================= *)
@@ -105,6 +105,31 @@ Theorem C14_lut_set_then_rotate_selects_left :
       if Z.even ((j + drift) / domain) then e else map (wneg 64) e.
 Proof. exact set_then_rotate_selects_left. Qed.
 Print Assumptions C14_lut_set_then_rotate_selects_left.
+
+(* ================= 2b. configuration histories (alloc; then set_rotation_direction / set in ANY order) ================= *)
+(* Model/C14Lut.v: lstate = {data, drift, rot_dir}; `set` rewrites data and drift and leaves rot_dir alone (as lut.rs does).
+   After any history from a fresh table: the direction is the one requested last (default Left) -- independent of the
+   interleaved `set` calls -- and table and drift are those of the last `set`. *)
+Theorem C14_history_direction_and_table :
+  forall (n ext : nat) (b klut : Z) (evs : list levent) (st : lstate),
+    run_events n ext b klut evs (lut_alloc n ext b klut) = Some st ->
+    st_left st = last_dir evs true /\
+    match last_set evs None with
+    | Some kf => lookup_table_set n ext b klut (fst kf) (snd kf) = Some (st_data st, st_drift st)
+    | None => st_data st = st_data (lut_alloc n ext b klut) /\ st_drift st = 0
+    end.
+Proof. exact history_direction_and_table. Qed.
+Print Assumptions C14_history_direction_and_table.
+Theorem C14_history_direction_ignores_set :
+  forall (evs : list levent) (l0 : bool),
+    last_dir evs l0 = last_dir (filter (fun ev => match ev with EDir _ => true | ESet _ _ => false end) evs) l0.
+Proof. exact last_dir_ignores_set. Qed.
+Print Assumptions C14_history_direction_ignores_set.
+Theorem C14_history_last_request_wins :
+  forall (evs : list levent) (l l0 : bool) (k : Z) (f : list Z),
+    last_dir (evs ++ [EDir l]) l0 = l /\ last_dir (evs ++ [ESet k f]) l0 = last_dir evs l0.
+Proof. exact (fun evs l l0 k f => conj (last_dir_app_dir evs l l0) (last_dir_app_set evs k f l0)). Qed.
+Print Assumptions C14_history_last_request_wins.
 
 (* ================= 3. mod_switch_2n (as repaired by /repo e75ed0e) ================= *)
 (* BOTH branches, every radix 1 <= b <= 62, 2N ext = 2^t: with size = min(ceil((t+1)/b), #limbs) and tot = size*b, the integer A
@@ -331,6 +356,10 @@ Proof. repeat split; try (cbn; lia); repeat constructor; cbn; lia. Qed.
 Example C14_ex_extended :
   cggi_extended 2 1 0 [-1] [1] [[5; 7]; [6; 8]] = [[6; 8]; [7; -5]] /\ zrot (-1) [5; 6; 7; 8] = [6; 7; 8; -5].
 Proof. split; reflexivity. Qed.
+Example C14_ex_history :
+  exists st, run_events 4 2 4 8 [EDir false; ESet 3 [1; 2; 3; -1]; ESet 3 [0; 1; 0; 1]] (lut_alloc 4 2 4 8) = Some st /\
+             st_left st = false /\ st_drift st = 1.
+Proof. eexists. split; [vm_compute; reflexivity|]. split; reflexivity. Qed.
 Example C14_ex_xai : fst (set_xai_plus_y 4 5 7 [0; 0; 0; 0]) = [7; -1; 0; 0] /\ snd (set_xai_plus_y 4 5 7 [0; 0; 0; 0]) = [0; 0; 0; 0].
 Proof. split; reflexivity. Qed.
 Example C14_ex_blind :
